@@ -16,6 +16,15 @@ def run(chk):
     name, hyps, goal = [l for l in lem if l[0] == "c03:hh[key]<=true-count"][0]
     f = z3.Function("hf", z3.IntSort(), z3.IntSort())
     chk.prove("canary:c03:hh[key]<true-count", hyps + [z3.Int("depth") == 1, z3.Int("width") == 1, z3.Int("max_key_len") == 1], z3.Int("res") < f(z3.Int("x")), expect="refuted")
+    from . import _glue, _oracle
+
+    chk.kernel("heavyhitters._add_ngram")
+    _glue.glue_part(chk, ["HeavyHitters"], {"add", "getitem", "update", "add_ngram", "update_ngram"}, lambda: _oracle.hh_history(chk, 150))
+    hn = 25 if chk.tier == "quick" else 800
+    hb = _oracle.hh_history(chk, hn)
+    if hb and hb.get("property") in ("C03", None):
+        chk.violation("HeavyHitters:bounded:history-oracle", {"verdict": "bounded oracle failed"}, hb)
+    chk.bounded_standin("random histories on the real HeavyHitters (NUL-padded aliases, widths 1..3, merges, save/load, queries)", "%d histories" % hn, hn, int(bool(hb)))
     _hh.crosscheck_hh(chk)
     n = 20 if chk.tier == "quick" else 400
     cases, bad = _hh.runtime_search(chk, _hh.KERNELS, n)
